@@ -20,6 +20,12 @@ func init() {
 		Run: runReinit})
 }
 
+// libraryReceiverAllow: package-level objects that may be the receiver of the named library
+// method after initialisation (one entry per symbol pair, with the reason).
+var libraryReceiverAllow = map[string]string{
+	"grits/webserver.upgrader (*github.com/gorilla/websocket.Upgrader).Upgrade": "configuration object; Upgrade only reads its fields (documented safe for concurrent use)",
+}
+
 // derivesFromGlobal: addr is &g, &g.f, &g[i], or an element/field address of the value loaded from g.
 func derivesFromGlobal(v ssa.Value, depth int) *ssa.Global {
 	if depth > 6 {
@@ -78,12 +84,13 @@ func runGlobals(p *Program, r *RuleResult) {
 				case ssa.CallInstruction:
 					for ai, a := range x.Common().Args {
 						if sc := x.Common().StaticCallee(); ai == 0 && sc != nil && sc.Signature.Recv() != nil && !p.isFirstParty(sc) {
-							// receiver of a library method (e.g. the websocket upgrader configuration object):
-							// the library's own synchronisation/immutability contract applies; recorded, not judged
+							// receiver of a library method: allowed only for the named, reviewed pairs below
 							if gg := derivesFromGlobal(a, 0); gg != nil {
-								libRecv[gg.Name()+" -> "+sc.String()] = true
+								if why, ok := libraryReceiverAllow[gg.Pkg.Pkg.Path()+"."+gg.Name()+" "+sc.String()]; ok {
+									libRecv[gg.Name()+" -> "+sc.String()+" ("+why+")"] = true
+									continue
+								}
 							}
-							continue
 						}
 						switch a.(type) {
 						case *ssa.Global, *ssa.FieldAddr, *ssa.IndexAddr:
